@@ -2,3 +2,4 @@
 pub mod geom;
 pub mod gdsflat;
 pub mod gdsstream;
+pub mod lefrender;
